@@ -278,6 +278,15 @@ theorem random_two_is_method_call (k : Nat) (a b : Int) :
     ∧ ∀ st : St, step st (randomTwoOp k a a) = (st, .err .assert) :=
   ⟨randomTwoOp_is_append k a b, fun st => randomTwoOp_equal_indices st k a⟩
 
+/-- a successful two-qubit draw `k < 3` on distinct qubits records `_two_qubit_gate_list[k]` on `(a, b)` **in this order** and drops the cache -/
+theorem random_two_records (st : St) (k : Nat) (hk : k < 3) (a b : Nat) (hab : a ≠ b) :
+    ∃ key, twoGateList[k]? = some key ∧
+      step st (randomTwoOp k (a : Int) (b : Int)) = ({ gates := st.gates ++ [⟨key, [a, b]⟩], cache := none }, .unit) :=
+  randomTwoOp_records st k hk a b hab
+
+/-- draws consumed by `random_two_qubit_gate` (op `r2draws`): none when the early `assert index0 != index1` fires, one otherwise -/
+theorem random_two_draws (a b : Int) : randomTwoDraws a a = 0 ∧ (a ≠ b → randomTwoDraws a b = 1) := randomTwoDraws_spec a b
+
 /-- **`history_independent` covers the random-gate methods**: histories whose calls are ordinary ops, `random_one_qubit_gate`
 (draw, index) or `random_two_qubit_gate` (draw, indices), in any order -/
 theorem history_independent_random (calls : List (Clifford.Op ⊕ (Nat × Int) ⊕ (Nat × Int × Int))) :
